@@ -27,6 +27,19 @@ def main():
     except Exception:
         pass
     import gasol_asm
+    if "--prefer-greedy" in sys.argv:
+        # scenario injection (not a GASOL option): the solver's answer counts as worse than the greedy algorithm's
+        # whenever the latter saves gas -- what happens by itself when the solver runs into its time limit
+        sys.argv.remove("--prefer-greedy")
+        orig = gasol_asm.compare_best_block
+
+        def prefer(original_seq, optimized_superopt, optimized_greedy, criterion):
+            seq, tag = orig(original_seq, optimized_superopt, optimized_greedy, criterion)
+            if tag in ("tie", "superopt") and optimized_greedy is not None:
+                if sum(i.gas_spent for i in original_seq) - sum(i.gas_spent for i in optimized_greedy) > 0:
+                    return optimized_greedy, "greedy"
+            return seq, tag
+        gasol_asm.compare_best_block = prefer
     sys.argv = ["gasol_asm.py"] + sys.argv[1:]
     try:
         gasol_asm.main_gasol()
